@@ -9,10 +9,11 @@
 use std::cell::RefCell;
 use std::io::{BufRead, BufWriter, Write};
 
-use happylock::collection::{BoxedLockCollection, OwnedLockCollection, RetryingLockCollection};
-use happylock::lockable::{Lockable, LockableGetMut, LockableIntoInner, OwnedLockable};
+use happylock::collection::{BoxedLockCollection, OwnedLockCollection, RefLockCollection, RetryingLockCollection};
+use happylock::lockable::{Lockable, LockableGetMut, LockableIntoInner, OwnedLockable, RawLock, Sharable};
 use happylock::mutex::MutexRef;
-use happylock::{Mutex, Poisonable, ThreadKey};
+use happylock::rwlock::{RwLockReadRef, RwLockWriteRef};
+use happylock::{Mutex, Poisonable, RwLock, ThreadKey};
 use serde::Deserialize;
 
 thread_local! {
@@ -46,17 +47,18 @@ fn vret(path: &str, pos: usize, d: &D) {
 
 #[derive(Deserialize, Clone, Debug)]
 pub struct VOp {
-	pub o: String, // lockw | getmut | extend
+	pub o: String, // lockw | scopedw | getmut | childmut | itermut | extend | lockr | scopedr
 	pub pos: usize,
 	pub val: i64,
 }
 
 #[derive(Deserialize, Clone, Debug)]
 pub struct VScen {
-	pub kind: String,  // boxed | retry | owned | pois
+	pub kind: String,  // boxed | retry | owned | ref | pois
 	pub shape: String, // tuple2 | array | vec | boxslice | single
+	pub mem: String,   // m (Mutex members) | rw (RwLock members)
 	pub n: usize,
-	pub ctor: String, // new | try_new | from | from_iter | reject
+	pub ctor: String, // new | try_new | from | from_iter | new_ref | reject | zst
 	pub ops: Vec<VOp>,
 	pub dtor: String, // drop | into_inner | into_child | into_iter
 }
@@ -64,8 +66,9 @@ pub struct VScen {
 /// what the harness needs to know about a container shape
 trait ShapeOps: Sized + OwnedLockable + LockableIntoInner + LockableGetMut {
 	fn guard_write(g: &mut <Self as Lockable>::Guard<'_>, pos: usize, val: i64);
+	fn data_write(d: &mut <Self as Lockable>::DataMut<'_>, pos: usize, val: i64);
 	fn inner_list(inner: <Self as LockableIntoInner>::Inner) -> Vec<D>;
-	fn getmut_write(inner: &mut <Self as LockableGetMut>::Inner<'_>, pos: usize, val: i64);
+	fn getmut_write(inner: &mut <Self as LockableGetMut>::Inner<'_>, path: &str, pos: usize, val: i64);
 	fn into_locks(self) -> Vec<M>;
 	/// (members whose raw mutex is locked right now, members)
 	fn locked_count(&self) -> (usize, usize);
@@ -88,6 +91,11 @@ fn write_ref(r: &mut MutexRef<'_, D, PR>, path: &str, pos: usize, val: i64) {
 	r.val = val;
 }
 
+fn write_d(d: &mut D, path: &str, pos: usize, val: i64) {
+	vret(path, pos, d);
+	d.val = val;
+}
+
 impl ShapeOps for (M, M) {
 	fn guard_write(g: &mut <Self as Lockable>::Guard<'_>, pos: usize, val: i64) {
 		match pos {
@@ -95,13 +103,18 @@ impl ShapeOps for (M, M) {
 			_ => write_ref(&mut g.1, "guard", 2, val),
 		}
 	}
+	fn data_write(d: &mut (&mut D, &mut D), pos: usize, val: i64) {
+		match pos {
+			1 => write_d(d.0, "scoped", 1, val),
+			_ => write_d(d.1, "scoped", 2, val),
+		}
+	}
 	fn inner_list(inner: (D, D)) -> Vec<D> {
 		vec![inner.0, inner.1]
 	}
-	fn getmut_write(inner: &mut (&mut D, &mut D), pos: usize, val: i64) {
+	fn getmut_write(inner: &mut (&mut D, &mut D), path: &str, pos: usize, val: i64) {
 		let d: &mut D = if pos == 1 { &mut *inner.0 } else { &mut *inner.1 };
-		vret("get_mut", pos, d);
-		d.val = val;
+		write_d(d, path, pos, val);
 	}
 	fn into_locks(self) -> Vec<M> {
 		vec![self.0, self.1]
@@ -115,12 +128,14 @@ impl<const N: usize> ShapeOps for [M; N] {
 	fn guard_write(g: &mut <Self as Lockable>::Guard<'_>, pos: usize, val: i64) {
 		write_ref(&mut g[pos - 1], "guard", pos, val)
 	}
+	fn data_write(d: &mut [&mut D; N], pos: usize, val: i64) {
+		write_d(d[pos - 1], "scoped", pos, val)
+	}
 	fn inner_list(inner: [D; N]) -> Vec<D> {
 		inner.into_iter().collect()
 	}
-	fn getmut_write(inner: &mut [&mut D; N], pos: usize, val: i64) {
-		vret("get_mut", pos, inner[pos - 1]);
-		inner[pos - 1].val = val;
+	fn getmut_write(inner: &mut [&mut D; N], path: &str, pos: usize, val: i64) {
+		write_d(inner[pos - 1], path, pos, val)
 	}
 	fn into_locks(self) -> Vec<M> {
 		self.into_iter().collect()
@@ -134,12 +149,14 @@ impl ShapeOps for Vec<M> {
 	fn guard_write(g: &mut <Self as Lockable>::Guard<'_>, pos: usize, val: i64) {
 		write_ref(&mut g[pos - 1], "guard", pos, val)
 	}
+	fn data_write(d: &mut Box<[&mut D]>, pos: usize, val: i64) {
+		write_d(d[pos - 1], "scoped", pos, val)
+	}
 	fn inner_list(inner: Box<[D]>) -> Vec<D> {
 		inner.into_vec()
 	}
-	fn getmut_write(inner: &mut Box<[&mut D]>, pos: usize, val: i64) {
-		vret("get_mut", pos, inner[pos - 1]);
-		inner[pos - 1].val = val;
+	fn getmut_write(inner: &mut Box<[&mut D]>, path: &str, pos: usize, val: i64) {
+		write_d(inner[pos - 1], path, pos, val)
 	}
 	fn into_locks(self) -> Vec<M> {
 		self
@@ -153,18 +170,318 @@ impl ShapeOps for Box<[M]> {
 	fn guard_write(g: &mut <Self as Lockable>::Guard<'_>, pos: usize, val: i64) {
 		write_ref(&mut g[pos - 1], "guard", pos, val)
 	}
+	fn data_write(d: &mut Box<[&mut D]>, pos: usize, val: i64) {
+		write_d(d[pos - 1], "scoped", pos, val)
+	}
 	fn inner_list(inner: Box<[D]>) -> Vec<D> {
 		inner.into_vec()
 	}
-	fn getmut_write(inner: &mut Box<[&mut D]>, pos: usize, val: i64) {
-		vret("get_mut", pos, inner[pos - 1]);
-		inner[pos - 1].val = val;
+	fn getmut_write(inner: &mut Box<[&mut D]>, path: &str, pos: usize, val: i64) {
+		write_d(inner[pos - 1], path, pos, val)
 	}
 	fn into_locks(self) -> Vec<M> {
 		self.into_vec()
 	}
 	fn locked_count(&self) -> (usize, usize) {
 		(self.iter().filter(|m| is_locked(m)).count(), self.len())
+	}
+}
+
+// ---- RwLock members: write and read paths of every shape -------------------------
+
+type RW = RwLock<D>;
+type PRW = parking_lot::RawRwLock;
+
+/// 0 free, 1 shared, 2 exclusive — probed through the RawLock interface (one thread, nothing waits)
+fn rw_state(m: &RW) -> u8 {
+	unsafe {
+		if m.raw_try_write() {
+			m.raw_unlock_write();
+			0
+		} else if m.raw_try_read() {
+			m.raw_unlock_read();
+			1
+		} else {
+			2
+		}
+	}
+}
+
+fn mkrw(id: usize) -> RW {
+	RwLock::new(D {
+		id: id as u32,
+		val: 10 * id as i64,
+	})
+}
+
+trait RwShape: Sized + OwnedLockable + Sharable + LockableIntoInner {
+	fn guard_write(g: &mut <Self as Lockable>::Guard<'_>, pos: usize, val: i64);
+	fn data_write(d: &mut <Self as Lockable>::DataMut<'_>, pos: usize, val: i64);
+	fn read_visit(g: &<Self as Sharable>::ReadGuard<'_>, pos: usize);
+	fn dataref_visit(d: &<Self as Sharable>::DataRef<'_>, pos: usize);
+	fn inner_list(inner: <Self as LockableIntoInner>::Inner) -> Vec<D>;
+	fn states(&self) -> Vec<u8>;
+}
+
+fn wref(r: &mut RwLockWriteRef<'_, D, PRW>, pos: usize, val: i64) {
+	vret("guard", pos, r);
+	r.val = val;
+}
+fn rref(r: &RwLockReadRef<'_, D, PRW>, pos: usize) {
+	vret("read", pos, r);
+}
+
+impl RwShape for (RW, RW) {
+	fn guard_write(g: &mut <Self as Lockable>::Guard<'_>, pos: usize, val: i64) {
+		match pos {
+			1 => wref(&mut g.0, 1, val),
+			_ => wref(&mut g.1, 2, val),
+		}
+	}
+	fn data_write(d: &mut (&mut D, &mut D), pos: usize, val: i64) {
+		match pos {
+			1 => write_d(d.0, "scoped", 1, val),
+			_ => write_d(d.1, "scoped", 2, val),
+		}
+	}
+	fn read_visit(g: &<Self as Sharable>::ReadGuard<'_>, pos: usize) {
+		match pos {
+			1 => rref(&g.0, 1),
+			_ => rref(&g.1, 2),
+		}
+	}
+	fn dataref_visit(d: &(&D, &D), pos: usize) {
+		match pos {
+			1 => vret("scoped_read", 1, d.0),
+			_ => vret("scoped_read", 2, d.1),
+		}
+	}
+	fn inner_list(inner: (D, D)) -> Vec<D> {
+		vec![inner.0, inner.1]
+	}
+	fn states(&self) -> Vec<u8> {
+		vec![rw_state(&self.0), rw_state(&self.1)]
+	}
+}
+
+impl<const N: usize> RwShape for [RW; N] {
+	fn guard_write(g: &mut <Self as Lockable>::Guard<'_>, pos: usize, val: i64) {
+		wref(&mut g[pos - 1], pos, val)
+	}
+	fn data_write(d: &mut [&mut D; N], pos: usize, val: i64) {
+		write_d(d[pos - 1], "scoped", pos, val)
+	}
+	fn read_visit(g: &<Self as Sharable>::ReadGuard<'_>, pos: usize) {
+		rref(&g[pos - 1], pos)
+	}
+	fn dataref_visit(d: &[&D; N], pos: usize) {
+		vret("scoped_read", pos, d[pos - 1])
+	}
+	fn inner_list(inner: [D; N]) -> Vec<D> {
+		inner.into_iter().collect()
+	}
+	fn states(&self) -> Vec<u8> {
+		self.iter().map(rw_state).collect()
+	}
+}
+
+macro_rules! rw_slice_shape {
+	($t:ty) => {
+		impl RwShape for $t {
+			fn guard_write(g: &mut <Self as Lockable>::Guard<'_>, pos: usize, val: i64) {
+				wref(&mut g[pos - 1], pos, val)
+			}
+			fn data_write(d: &mut Box<[&mut D]>, pos: usize, val: i64) {
+				write_d(d[pos - 1], "scoped", pos, val)
+			}
+			fn read_visit(g: &<Self as Sharable>::ReadGuard<'_>, pos: usize) {
+				rref(&g[pos - 1], pos)
+			}
+			fn dataref_visit(d: &Box<[&D]>, pos: usize) {
+				vret("scoped_read", pos, d[pos - 1])
+			}
+			fn inner_list(inner: Box<[D]>) -> Vec<D> {
+				inner.into_vec()
+			}
+			fn states(&self) -> Vec<u8> {
+				self.iter().map(rw_state).collect()
+			}
+		}
+	};
+}
+rw_slice_shape!(Vec<RW>);
+rw_slice_shape!(Box<[RW]>);
+
+fn vheld_rw(when: &str, st: Vec<u8>) {
+	let want = match when {
+		"guard" => 2,
+		"rguard" => 1,
+		_ => 0,
+	};
+	let n = if when == "after" {
+		st.iter().filter(|&&x| x != 0).count()
+	} else {
+		st.iter().filter(|&&x| x == want).count()
+	};
+	vheld(when, (n, st.len()));
+}
+
+/// the four operations of an RwLock-membered collection; `$c` is any collection type with the
+/// lock / read / scoped_lock / scoped_read API and `$data` an expression of type &S
+macro_rules! rw_ops {
+	($sc:expr, $c:expr, $data:expr, $S:ty) => {
+		for op in &$sc.ops {
+			match op.o.as_str() {
+				"lockw" => {
+					let mut g = $c.lock(key());
+					vheld_rw("guard", $data.states());
+					<$S>::guard_write(&mut g, op.pos, op.val);
+					drop(g);
+					vheld_rw("after", $data.states());
+				}
+				"lockr" => {
+					let g = $c.read(key());
+					vheld_rw("rguard", $data.states());
+					<$S>::read_visit(&g, op.pos);
+					drop(g);
+					vheld_rw("after", $data.states());
+				}
+				"scopedw" => {
+					let mut k = key();
+					$c.scoped_lock(&mut k, |mut d| {
+						vheld_rw("guard", $data.states());
+						<$S>::data_write(&mut d, op.pos, op.val)
+					});
+					vheld_rw("after", $data.states());
+				}
+				"scopedr" => {
+					let mut k = key();
+					$c.scoped_read(&mut k, |d| {
+						vheld_rw("rguard", $data.states());
+						<$S>::dataref_visit(&d, op.pos)
+					});
+					vheld_rw("after", $data.states());
+				}
+				x => panic!("values: op {x} not applicable to RwLock members"),
+			}
+		}
+	};
+}
+
+fn rw_finish<S: RwShape>(sc: &VScen, data: S) {
+	match sc.dtor.as_str() {
+		"drop" => drop(data),
+		"into_inner" => report_values("into_inner", S::inner_list(data.into_inner())),
+		x => panic!("values: dtor {x} not applicable to RwLock members"),
+	}
+}
+
+fn run_rw<S: RwShape + 'static>(sc: &VScen, data: S) {
+	// the collection borrows or owns `data`; the final destructor always acts on the container itself
+	match (sc.kind.as_str(), sc.ctor.as_str()) {
+		("boxed", "new_ref") => {
+			let c = BoxedLockCollection::new_ref(&data);
+			rw_ops!(sc, c, data, S);
+			drop(c);
+			rw_finish(sc, data)
+		}
+		("boxed", ct) => {
+			let c = match ct {
+				"new" => BoxedLockCollection::new(data),
+				"try_new" => BoxedLockCollection::try_new(data).expect("values: duplicate-free input rejected"),
+				"from" => BoxedLockCollection::from(data),
+				x => panic!("values: ctor {x} not applicable"),
+			};
+			run_rw_boxed_built(sc, c)
+		}
+		("retry", "new_ref") => {
+			let c = RetryingLockCollection::new_ref(&data);
+			rw_ops!(sc, c, data, S);
+			drop(c);
+			rw_finish(sc, data)
+		}
+		("retry", ct) => {
+			let c = match ct {
+				"new" => RetryingLockCollection::new(data),
+				"from" => RetryingLockCollection::from(data),
+				x => panic!("values: ctor {x} not applicable"),
+			};
+			rw_ops!(sc, c, c.child(), S);
+			rw_finish(sc, c.into_child())
+		}
+		("owned", ct) => {
+			let c = match ct {
+				"new" => OwnedLockCollection::new(data),
+				"from" => OwnedLockCollection::from(data),
+				x => panic!("values: ctor {x} not applicable"),
+			};
+			// an owned collection gives no shared access to its child: no hold probe
+			for op in &sc.ops {
+				match op.o.as_str() {
+					"lockw" => {
+						let mut g = c.lock(key());
+						S::guard_write(&mut g, op.pos, op.val);
+					}
+					"lockr" => {
+						let g = c.read(key());
+						S::read_visit(&g, op.pos);
+					}
+					"scopedw" => {
+						let mut k = key();
+						c.scoped_lock(&mut k, |mut d| S::data_write(&mut d, op.pos, op.val));
+					}
+					"scopedr" => {
+						let mut k = key();
+						c.scoped_read(&mut k, |d| S::dataref_visit(&d, op.pos));
+					}
+					x => panic!("values: op {x}"),
+				}
+			}
+			rw_finish(sc, c.into_child())
+		}
+		("ref", ct) => {
+			let c = match ct {
+				"new" => RefLockCollection::new(&data),
+				"try_new" => RefLockCollection::try_new(&data).expect("values: duplicate-free input rejected"),
+				x => panic!("values: ctor {x} not applicable"),
+			};
+			rw_ops!(sc, c, data, S);
+			drop(c);
+			rw_finish(sc, data)
+		}
+		(k, _) => panic!("values: kind {k}"),
+	}
+}
+
+fn run_rw_boxed_built<S: RwShape + 'static>(sc: &VScen, c: BoxedLockCollection<S>) {
+	rw_ops!(sc, c, c.child(), S);
+	rw_finish(sc, c.into_child())
+}
+
+fn arr_rw<const N: usize>() -> [RW; N] {
+	std::array::from_fn(|i| mkrw(i + 1))
+}
+
+fn run_scen_rw(sc: &VScen) {
+	let vecd = || -> Vec<RW> { (1..=sc.n).map(mkrw).collect() };
+	match (sc.shape.as_str(), sc.n) {
+		("tuple2", _) => run_rw(sc, (mkrw(1), mkrw(2))),
+		("vec", _) if sc.ctor == "from_iter" => {
+			let c: BoxedLockCollection<Vec<RW>> = vecd().into_iter().collect();
+			run_rw_boxed_built(sc, c)
+		}
+		("boxslice", _) if sc.ctor == "from_iter" => {
+			let c: BoxedLockCollection<Box<[RW]>> = vecd().into_iter().collect();
+			run_rw_boxed_built(sc, c)
+		}
+		("vec", _) => run_rw(sc, vecd()),
+		("boxslice", _) => run_rw(sc, vecd().into_boxed_slice()),
+		("array", 0) => run_rw(sc, arr_rw::<0>()),
+		("array", 1) => run_rw(sc, arr_rw::<1>()),
+		("array", 2) => run_rw(sc, arr_rw::<2>()),
+		("array", 3) => run_rw(sc, arr_rw::<3>()),
+		("array", 4) => run_rw(sc, arr_rw::<4>()),
+		_ => panic!("values: shape"),
 	}
 }
 
@@ -193,65 +510,124 @@ fn key() -> ThreadKey {
 
 // ---- one generic runner per collection kind ------------------------------------
 
-fn run_boxed<S: ShapeOps + IntoIterator<Item = M> + 'static>(sc: &VScen, data: S)
-where
-	for<'a> &'a S: Sized,
-{
+/// guard / scoped operations available on every collection kind; `$probe` yields (locked, total)
+macro_rules! lock_ops {
+	($op:expr, $c:expr, $S:ty, $probe:expr) => {
+		match $op.o.as_str() {
+			"lockw" => {
+				let mut g = $c.lock(key());
+				if let Some(p) = $probe {
+					vheld("guard", p());
+				}
+				<$S>::guard_write(&mut g, $op.pos, $op.val);
+				drop(g);
+				if let Some(p) = $probe {
+					vheld("after", p());
+				}
+				true
+			}
+			"scopedw" => {
+				let mut k = key();
+				$c.scoped_lock(&mut k, |mut d| {
+					if let Some(p) = $probe {
+						vheld("guard", p());
+					}
+					<$S>::data_write(&mut d, $op.pos, $op.val)
+				});
+				if let Some(p) = $probe {
+					vheld("after", p());
+				}
+				true
+			}
+			_ => false,
+		}
+	};
+}
+
+fn finish_container<S: ShapeOps>(sc: &VScen, data: S) {
+	match sc.dtor.as_str() {
+		"drop" => drop(data),
+		"into_inner" => report_values("into_inner", S::inner_list(data.into_inner())),
+		x => panic!("values: dtor {x} not applicable to a borrowed container"),
+	}
+}
+
+fn run_boxed<S: ShapeOps + 'static>(sc: &VScen, data: S, iter: Option<fn(BoxedLockCollection<S>) -> Vec<M>>) {
+	if sc.ctor == "new_ref" {
+		let c = BoxedLockCollection::new_ref(&data);
+		for op in &sc.ops {
+			let probe = Some(|| data.locked_count());
+			if !lock_ops!(op, c, S, probe) {
+				panic!("values: op {} not applicable to boxed/new_ref", op.o);
+			}
+		}
+		drop(c);
+		return finish_container(sc, data);
+	}
 	let c: BoxedLockCollection<S> = match sc.ctor.as_str() {
 		"new" => BoxedLockCollection::new(data),
 		"try_new" => BoxedLockCollection::try_new(data).expect("values: duplicate-free input rejected"),
 		"from" => BoxedLockCollection::from(data),
 		x => panic!("values: ctor {x} not applicable to boxed"),
 	};
+	run_boxed_built(sc, c, iter)
+}
+
+/// boxed collection already built (also by `collect()`)
+fn run_boxed_built<S: ShapeOps + 'static>(sc: &VScen, c: BoxedLockCollection<S>, iter: Option<fn(BoxedLockCollection<S>) -> Vec<M>>) {
 	for op in &sc.ops {
-		match op.o.as_str() {
-			"lockw" => {
-				let mut g = c.lock(key());
-				vheld("guard", c.child().locked_count());
-				S::guard_write(&mut g, op.pos, op.val);
-				drop(g);
-				vheld("after", c.child().locked_count());
-			}
-			x => panic!("values: op {x} not applicable to boxed"),
+		let probe = Some(|| c.child().locked_count());
+		if !lock_ops!(op, c, S, probe) {
+			panic!("values: op {} not applicable to boxed", op.o);
 		}
 	}
 	match sc.dtor.as_str() {
 		"drop" => drop(c),
 		"into_inner" => report_values("into_inner", S::inner_list(c.into_inner())),
 		"into_child" => report_locks("into_child", c.into_child().into_locks()),
-		"into_iter" => report_locks("into_iter", c.into_iter().collect()),
+		"into_iter" => report_locks("into_iter", (iter.expect("values: into_iter not applicable"))(c)),
 		x => panic!("values: dtor {x}"),
 	}
 }
 
-fn run_boxed_tuple(sc: &VScen, data: (M, M)) {
-	let c: BoxedLockCollection<(M, M)> = match sc.ctor.as_str() {
-		"new" => BoxedLockCollection::new(data),
-		"try_new" => BoxedLockCollection::try_new(data).expect("values: duplicate-free input rejected"),
-		"from" => BoxedLockCollection::from(data),
-		x => panic!("values: ctor {x} not applicable"),
+fn run_ref<S: ShapeOps + 'static>(sc: &VScen, data: S) {
+	let c = match sc.ctor.as_str() {
+		"new" => RefLockCollection::new(&data),
+		"try_new" => RefLockCollection::try_new(&data).expect("values: duplicate-free input rejected"),
+		x => panic!("values: ctor {x} not applicable to ref"),
 	};
 	for op in &sc.ops {
-		if op.o == "lockw" {
-			let mut g = c.lock(key());
-			vheld("guard", c.child().locked_count());
-			<(M, M)>::guard_write(&mut g, op.pos, op.val);
-			drop(g);
-			vheld("after", c.child().locked_count());
+		let probe = Some(|| data.locked_count());
+		if !lock_ops!(op, c, S, probe) {
+			panic!("values: op {} not applicable to ref", op.o);
 		}
 	}
-	match sc.dtor.as_str() {
-		"drop" => drop(c),
-		"into_inner" => report_values("into_inner", <(M, M)>::inner_list(c.into_inner())),
-		"into_child" => report_locks("into_child", c.into_child().into_locks()),
-		x => panic!("values: dtor {x} not applicable to a tuple"),
+	drop(c);
+	finish_container(sc, data)
+}
+
+fn run_retry_ref<S: ShapeOps + 'static>(sc: &VScen, data: S) {
+	let c = RetryingLockCollection::new_ref(&data);
+	for op in &sc.ops {
+		let probe = Some(|| data.locked_count());
+		if !lock_ops!(op, c, S, probe) {
+			panic!("values: op {} not applicable to retry/new_ref", op.o);
+		}
 	}
+	drop(c);
+	finish_container(sc, data)
 }
 
 macro_rules! owning_runner {
 	($name:ident, $coll:ident, $probe:expr) => {
-		fn $name<S: ShapeOps + 'static>(sc: &VScen, data: S, iter: Option<fn($coll<S>) -> Vec<M>>, ext: Option<fn(&mut $coll<S>, M)>) {
-			let probe: Option<fn(&$coll<S>) -> (usize, usize)> = $probe;
+		fn $name<S: ShapeOps + 'static>(
+			sc: &VScen,
+			data: S,
+			iter: Option<fn($coll<S>) -> Vec<M>>,
+			ext: Option<fn(&mut $coll<S>, M)>,
+			itm: Option<fn(&mut $coll<S>, usize, i64)>,
+		) {
+			let probe_fn: Option<fn(&$coll<S>) -> (usize, usize)> = $probe;
 			let mut c: $coll<S> = match sc.ctor.as_str() {
 				"new" => $coll::new(data),
 				"from" => $coll::from(data),
@@ -259,22 +635,23 @@ macro_rules! owning_runner {
 			};
 			let mut next_id = sc.n + 1;
 			for op in &sc.ops {
+				let probe = probe_fn.map(|p| {
+					let cr = &c;
+					move || p(cr)
+				});
+				if lock_ops!(op, c, S, probe) {
+					continue;
+				}
 				match op.o.as_str() {
-					"lockw" => {
-						let mut g = c.lock(key());
-						if let Some(p) = probe {
-							vheld("guard", p(&c));
-						}
-						S::guard_write(&mut g, op.pos, op.val);
-						drop(g);
-						if let Some(p) = probe {
-							vheld("after", p(&c));
-						}
-					}
 					"getmut" => {
 						let mut inner = c.get_mut();
-						S::getmut_write(&mut inner, op.pos, op.val);
+						S::getmut_write(&mut inner, "get_mut", op.pos, op.val);
 					}
+					"childmut" => {
+						let mut inner = LockableGetMut::get_mut(c.child_mut());
+						S::getmut_write(&mut inner, "child_mut", op.pos, op.val);
+					}
+					"itermut" => (itm.expect("values: iter_mut not applicable"))(&mut c, op.pos, op.val),
 					"extend" => {
 						(ext.expect("values: extend not applicable"))(&mut c, mk(next_id));
 						next_id += 1;
@@ -294,6 +671,10 @@ macro_rules! owning_runner {
 }
 owning_runner!(run_retry, RetryingLockCollection, Some(|c: &RetryingLockCollection<S>| c.child().locked_count()));
 owning_runner!(run_owned, OwnedLockCollection, None);
+
+fn itm_write(m: Option<&mut M>, pos: usize, val: i64) {
+	write_d(m.expect("values: iter_mut ended early").get_mut(), "iter_mut", pos, val)
+}
 
 fn run_reject(sc: &VScen) {
 	// a duplicate pair of references next to an owning member: the constructor must refuse the
@@ -342,11 +723,24 @@ fn run_zst(sc: &VScen) {
 
 fn run_pois(sc: &VScen) {
 	let p = Poisonable::new(mk(1));
+	let mut p = p;
 	for op in &sc.ops {
-		if op.o == "lockw" {
-			let mut g = p.lock(key()).unwrap_or_else(|e| e.into_inner());
-			vret("guard", 1, &g);
-			g.val = op.val;
+		match op.o.as_str() {
+			"lockw" => {
+				let mut g = p.lock(key()).unwrap_or_else(|e| e.into_inner());
+				vret("guard", 1, &g);
+				g.val = op.val;
+			}
+			"scopedw" => {
+				let mut k = key();
+				p.scoped_lock(&mut k, |r| {
+					let d: &mut D = r.unwrap_or_else(|e| e.into_inner());
+					write_d(d, "scoped", 1, op.val)
+				});
+			}
+			"getmut" => write_d(p.get_mut().unwrap_or_else(|e| e.into_inner()), "get_mut", 1, op.val),
+			"childmut" => write_d(p.child_mut().unwrap_or_else(|e| e.into_inner()).get_mut(), "child_mut", 1, op.val),
+			x => panic!("values: op {x} not applicable to pois"),
 		}
 	}
 	match sc.dtor.as_str() {
@@ -371,16 +765,21 @@ fn run_scen(sc: &VScen) {
 	if sc.kind == "pois" {
 		return run_pois(sc);
 	}
+	if sc.mem == "rw" {
+		return run_scen_rw(sc);
+	}
 	let vecd = || -> Vec<M> { (1..=sc.n).map(mk).collect() };
 	macro_rules! by_shape {
-		($run_generic:expr, $tuple:expr) => {
+		($run_arr:ident, $tuple:expr, $vec:expr, $bx:expr) => {
 			match (sc.shape.as_str(), sc.n) {
 				("tuple2", _) => $tuple,
-				("array", 0) => $run_generic(arr::<0>()),
-				("array", 1) => $run_generic(arr::<1>()),
-				("array", 2) => $run_generic(arr::<2>()),
-				("array", 3) => $run_generic(arr::<3>()),
-				("array", 4) => $run_generic(arr::<4>()),
+				("vec", _) => $vec,
+				("boxslice", _) => $bx,
+				("array", 0) => $run_arr(sc, arr::<0>()),
+				("array", 1) => $run_arr(sc, arr::<1>()),
+				("array", 2) => $run_arr(sc, arr::<2>()),
+				("array", 3) => $run_arr(sc, arr::<3>()),
+				("array", 4) => $run_arr(sc, arr::<4>()),
 				_ => panic!("values: shape"),
 			}
 		};
@@ -389,63 +788,81 @@ fn run_scen(sc: &VScen) {
 		"boxed" => match sc.shape.as_str() {
 			"vec" if sc.ctor == "from_iter" => {
 				let c: BoxedLockCollection<Vec<M>> = vecd().into_iter().collect();
-				run_boxed_built(sc, c)
+				run_boxed_built(sc, c, Some(|c| c.into_iter().collect()))
 			}
 			"boxslice" if sc.ctor == "from_iter" => {
 				let c: BoxedLockCollection<Box<[M]>> = vecd().into_iter().collect();
-				run_boxed_built(sc, c)
+				run_boxed_built(sc, c, Some(|c| c.into_iter().collect()))
 			}
-			"vec" => run_boxed(sc, vecd()),
-			"boxslice" => run_boxed(sc, vecd().into_boxed_slice()),
-			"tuple2" => run_boxed_tuple(sc, (mk(1), mk(2))),
-			_ => by_shape!(|d| run_boxed(sc, d), run_boxed_tuple(sc, (mk(1), mk(2)))),
+			_ => by_shape!(
+				run_boxed_arr,
+				run_boxed(sc, (mk(1), mk(2)), None),
+				run_boxed(sc, vecd(), Some(|c| c.into_iter().collect())),
+				run_boxed(sc, vecd().into_boxed_slice(), Some(|c| c.into_iter().collect()))
+			),
 		},
-		"retry" => match sc.shape.as_str() {
-			"vec" => run_retry(
+		"ref" => by_shape!(
+			run_ref,
+			run_ref(sc, (mk(1), mk(2))),
+			run_ref(sc, vecd()),
+			run_ref(sc, vecd().into_boxed_slice())
+		),
+		"retry" if sc.ctor == "new_ref" => by_shape!(
+			run_retry_ref,
+			run_retry_ref(sc, (mk(1), mk(2))),
+			run_retry_ref(sc, vecd()),
+			run_retry_ref(sc, vecd().into_boxed_slice())
+		),
+		"retry" => by_shape!(
+			run_retry_arr,
+			run_retry(sc, (mk(1), mk(2)), None, None, None),
+			run_retry(
 				sc,
 				vecd(),
 				Some(|c: RetryingLockCollection<Vec<M>>| c.into_iter().collect()),
 				Some(|c: &mut RetryingLockCollection<Vec<M>>, m: M| c.extend([m])),
+				Some(|c: &mut RetryingLockCollection<Vec<M>>, pos, val| itm_write(c.iter_mut().nth(pos - 1), pos, val)),
 			),
-			"boxslice" => run_retry(
+			run_retry(
 				sc,
 				vecd().into_boxed_slice(),
 				Some(|c: RetryingLockCollection<Box<[M]>>| c.into_iter().collect()),
 				None,
-			),
-			_ => by_shape!(
-				|d| run_retry_arr(sc, d),
-				run_retry(sc, (mk(1), mk(2)), None, None)
-			),
-		},
-		"owned" => match sc.shape.as_str() {
-			"vec" => run_owned(
+				Some(|c: &mut RetryingLockCollection<Box<[M]>>, pos, val| itm_write(c.iter_mut().nth(pos - 1), pos, val)),
+			)
+		),
+		"owned" => by_shape!(
+			run_owned_arr,
+			run_owned(sc, (mk(1), mk(2)), None, None, None),
+			run_owned(
 				sc,
 				vecd(),
 				Some(|c: OwnedLockCollection<Vec<M>>| c.into_iter().collect()),
 				Some(|c: &mut OwnedLockCollection<Vec<M>>, m: M| c.extend([m])),
+				None,
 			),
-			"boxslice" => run_owned(
+			run_owned(
 				sc,
 				vecd().into_boxed_slice(),
 				Some(|c: OwnedLockCollection<Box<[M]>>| c.into_iter().collect()),
 				None,
-			),
-			_ => by_shape!(
-				|d| run_owned_arr(sc, d),
-				run_owned(sc, (mk(1), mk(2)), None, None)
-			),
-		},
+				None,
+			)
+		),
 		k => panic!("values: kind {k}"),
 	}
 }
 
+fn run_boxed_arr<const N: usize>(sc: &VScen, d: [M; N]) {
+	run_boxed(sc, d, Some(|c: BoxedLockCollection<[M; N]>| c.into_iter().collect()))
+}
 fn run_retry_arr<const N: usize>(sc: &VScen, d: [M; N]) {
 	run_retry(
 		sc,
 		d,
 		Some(|c: RetryingLockCollection<[M; N]>| c.into_iter().collect()),
 		None,
+		Some(|c: &mut RetryingLockCollection<[M; N]>, pos, val| itm_write(c.iter_mut().nth(pos - 1), pos, val)),
 	)
 }
 fn run_owned_arr<const N: usize>(sc: &VScen, d: [M; N]) {
@@ -454,27 +871,8 @@ fn run_owned_arr<const N: usize>(sc: &VScen, d: [M; N]) {
 		d,
 		Some(|c: OwnedLockCollection<[M; N]>| c.into_iter().collect()),
 		None,
+		None,
 	)
-}
-
-/// boxed collection already built by `collect()`
-fn run_boxed_built<S: ShapeOps + IntoIterator<Item = M> + 'static>(sc: &VScen, c: BoxedLockCollection<S>) {
-	for op in &sc.ops {
-		if op.o == "lockw" {
-			let mut g = c.lock(key());
-			vheld("guard", c.child().locked_count());
-			S::guard_write(&mut g, op.pos, op.val);
-			drop(g);
-			vheld("after", c.child().locked_count());
-		}
-	}
-	match sc.dtor.as_str() {
-		"drop" => drop(c),
-		"into_inner" => report_values("into_inner", S::inner_list(c.into_inner())),
-		"into_child" => report_locks("into_child", c.into_child().into_locks()),
-		"into_iter" => report_locks("into_iter", c.into_iter().collect()),
-		x => panic!("values: dtor {x}"),
-	}
 }
 
 #[derive(Deserialize)]
